@@ -137,12 +137,21 @@ Definition perm_of (n : N) : perm :=
   match n with 0 => PRead | 1 => PWrite | 2 => PUpdate | 3 => PDelete | _ => PAdmin end.
 Definition b2n (b : bool) : N := if b then 1 else 0.
 
-Inductive item := IO (o : op) | IQ (su : str) (sa : bool) (u d t : str) (ps : list perm).
+Inductive item := IO (o : op) | IQ (su : str) (sa : bool) (u d t : str) (ps : list perm)
+                | IR (su : str) (sa : bool) (d t : str) (p : perm).       (* a row request at an endpoint *)
 Fixpoint replay (st : state) (l : list item) : list N :=
   match l with
   | [] => []
   | IO o :: r => replay (step st o) r
   | IQ su sa u d t ps :: r => b2n (authorized st su sa u (encode d t) ps) :: replay st r
+  | IR su sa d t p :: r => match row_request st su sa d t p with Some b => b2n b | None => 2 end :: replay st r
+  end.
+(* model answer 2 = the request fails before the grant check (no such DSN): nothing to compare *)
+Fixpoint ans_match (m real : list N) : bool :=
+  match m, real with
+  | [], [] => true
+  | x :: m', y :: r' => ((x =? 2) || (x =? y)) && ans_match m' r'
+  | _, _ => false
   end.
 Fixpoint nlist_eqb (a b : list N) : bool :=
   match a, b with [], [] => true | x :: a', y :: b' => (x =? y) && nlist_eqb a' b' | _, _ => false end.
